@@ -83,6 +83,18 @@ def make_evaluator(defs: Dict[str, ast.expr],
                 return NUM
             return ("bad", f"attribute {src(e)[:30]}")
         if isinstance(e, ast.Subscript):
+            # a selector computed from the geometry takes part in the
+            # decision: a bad selector makes the selection bad
+            comps = e.slice.elts if isinstance(e.slice, ast.Tuple) \
+                else [e.slice]
+            for c in comps:
+                if isinstance(c, (ast.Slice, ast.Constant)):
+                    continue
+                sv = ev(c, depth + 1)
+                if sv[0] == "bad" and not sv[1].startswith(
+                        ("unknown name", "attribute", "call ",
+                         "expression")):
+                    return sv
             return ev(e.value, depth + 1)
         if isinstance(e, (ast.Tuple, ast.List)):
             vs = [ev(x, depth + 1) for x in e.elts]
@@ -217,10 +229,12 @@ def make_evaluator(defs: Dict[str, ast.expr],
             v = ev(recv, depth + 1)
             if v[0] == "bad":
                 return v
-            if last == "ptp":
+            if last in ("ptp", "diff", "ediff1d"):
                 return ("inv", 1) if v == AFF else v
             if last in REDUCTIONS:
-                if v == AFF and axis_of(e) is None:
+                one_row = isinstance(recv, ast.Subscript) and isinstance(
+                    recv.slice, (ast.Name, ast.Constant))
+                if v == AFF and axis_of(e) is None and not one_row:
                     return ("bad", f"'{src(e)[:50]}' reduces positions over "
                                    f"all axes: not carried along by a "
                                    f"translation")
